@@ -131,7 +131,8 @@ def rel (basep targ : Bytes) : Option Bytes :=
       | x :: _, _ :: _ => if x = dotdotS then none
                           else some (joinWith slash (rb.map (fun _ => dotdotS) ++ rt))
       | [], _ => some (joinWith slash rt)
-      | _ :: _, [] => some (joinWith slash (rb.map (fun _ => dotdotS)))
+      | x :: _, [] => if x = dotdotS then none
+                      else some (joinWith slash (rb.map (fun _ => dotdotS)))
 
 end Path
 end Nfpm
